@@ -1,12 +1,7 @@
 SPECIFICATION RSpec
 CONSTANTS
-  Focus = "generic-fixed"
-  Families = {"leaf","topd","seqd","generic","typedecl","func","type"}
-  Budget = 2
-  LayoutMoves = 0
-  LayoutKinds = {}
-  Wrap = "decls"
-  CheckInjective = FALSE
+  Foci = {"rtgeneric2"}
+  InjFoci = {}
   TogoCopiesTypeParams = TRUE
   TogoHandlesIndexList = TRUE
   NilForNoNames = TRUE
